@@ -236,17 +236,17 @@ def data_rows(df):
 
 
 def run_scene(rows, prms, index=None, stages=('slices', 'groups', 'layers'), frame=None, debug_log=None, chunk_kwargs=None,
-              route='stepwise'):
+              route='stepwise', kernel_fuzz=None):
     """Execute the real pipeline on one scene under recording.  Returns the observation dict.
     One scene in four (chosen from the scene itself) runs with the package's loggers at DEBUG."""
     common.import_ampycloud()
     from ampycloud.data import CeiloChunk
-    obs = {'rows': rows, 'prms': prms, 'exc': None, 'stage': 'init', 'levels': {}, 'warnings': [], 'route': route}
+    obs = {'rows': rows, 'prms': prms, 'exc': None, 'stage': 'init', 'levels': {}, 'warnings': [], 'route': route, 'kernel_fuzz': kernel_fuzz}
     df = frame if frame is not None else make_frame(rows, index)
     if debug_log is None:
         debug_log = common.ambient_debug_for((len(rows), rows[:2], sorted((prms or {}).items(), key=str)))
     obs['debug_log'] = bool(debug_log)
-    with common.debug_logging(debug_log), record.recording() as tr, warnings.catch_warnings(record=True) as wl:
+    with common.debug_logging(debug_log), record.recording(fuzz=kernel_fuzz) as tr, warnings.catch_warnings(record=True) as wl:
         warnings.simplefilter('always')
         try:
             if route == 'run':
